@@ -12,7 +12,7 @@ def chk(id, cat, text, note, tech, ref):
 TRUST = "Trusted base: Go toolchain (and race detector where used), the source-to-source instrumenter (validated by setup and by running the repository code unmodified in /repo), the simulated network/clock (vnet/vtime), the independent SIP reader and reference model in /verif/harness."
 
 chk("C18", "exploration",
-    "Exhaustive small-scope enumeration on the real FindRoute/NewPreRouteItem: every route table of <=4 (thorough <=5) entries over a 12-pattern universe x 14 hosts, each lookup executed under EVERY map iteration order (the order is an explorer choice point, all permutations), compared with an independent wildcard matcher; plus the complete port-rule table and end-to-end lookups by To host through a running proxy. Stability is therefore decided, not sampled.",
+    "Exhaustive small-scope enumeration on the real FindRoute/NewPreRouteItem: every route table of <=4 (thorough <=5) entries over a 13-pattern universe x 14 hosts, each lookup executed under EVERY map iteration order (the order is an explorer choice point, all permutations), compared with an independent wildcard matcher; plus the complete port-rule table and end-to-end lookups by To host through a running proxy. Stability is therefore decided, not sampled.",
     TRUST + " Completeness is within the pattern/host universe.",
     "exhaustive enumeration of inputs x all map-iteration orders (stateless DFS over choice points) against a reference matcher", "§4 C18")
 
